@@ -112,6 +112,7 @@ typedef void (*FM_IRQHANDLER)(void *param,int irq);
  * @param IRQHandler Keep NULL
  * @return Chip instance or NULL on any error
  */
+void ym2612_init_tables(void);
 void * ym2612_init(void *param, int baseclock, int rate,
                FM_TIMERHANDLER TimerHandler,FM_IRQHANDLER IRQHandler);
 /**
